@@ -150,6 +150,10 @@ _SIGS = {
     "sweep_prefixes": (None, [c_char_p, c_size_t, c_char_p, c_size_t, c_size_t, POINTER(SweepOut)]),
     "sweep_prealloc": (None, [P, c_int, c_char_p, c_size_t, c_size_t, POINTER(SweepOut)]),
     "sweep_numbers": (None, [c_void_p, c_size_t, c_int, c_double, c_double, POINTER(SweepOut), POINTER(c_double)]),
+    "sweep_tokens": (None, [c_int, c_int, c_int, c_int, POINTER(SweepOut)]),
+    "token_case_replay": (c_int, [c_uint64, c_int, c_int]),
+    "token_text": (c_size_t, [c_uint64, c_int, c_char_p]),
+    "sweep_token_count": (c_int, []),
     "shim_poke_number": (None, [P, c_double, c_int]),
     "shim_poke_child": (None, [P, P]), "shim_poke_type": (None, [P, c_int]),
     "shim_next": (P, [P]), "shim_prev": (P, [P]), "shim_child": (P, [P]),
